@@ -124,6 +124,9 @@ func BuildIntake(r IntakeReq, kt KeyType, base protocol.Protocol, variant int) (
 			patches = append(append(append(patches, en...), dis...), DeltaPatches("ok", 2)...)
 		}
 		p.Patches = without(without(p.Patches, "add-also-known-as"), "remove-also-known-as")
+	case "emptyList":
+		patches = DeltaPatches("ok", 1)
+		p.Patches = [][]string{nil, {}}[variant%2]
 	case "empty":
 		patches = []patch.Patch{}
 	}
@@ -175,6 +178,9 @@ func BuildIntake(r IntakeReq, kt KeyType, base protocol.Protocol, variant int) (
 	case "notAllowed":
 		hdr["alg"] = kt.Alg()
 		p.SignatureAlgorithms = without(p.SignatureAlgorithms, kt.Alg())
+	case "emptyList":
+		hdr["alg"] = kt.Alg()
+		p.SignatureAlgorithms = [][]string{nil, {}}[variant%2]
 	case "empty":
 		hdr["alg"] = ""
 	case "missing":
@@ -185,6 +191,12 @@ func BuildIntake(r IntakeReq, kt KeyType, base protocol.Protocol, variant int) (
 	}
 	if r.Crv == "notAllowed" {
 		p.KeyAlgorithms = without(p.KeyAlgorithms, kt.String())
+	}
+	if r.Crv == "emptyList" {
+		p.KeyAlgorithms = [][]string{nil, {}}[variant%2]
+	}
+	if r.HashAlg.Class == "emptyList" {
+		p.MultihashAlgorithms = [][]uint{nil, {}}[variant%2]
 	}
 	sign := func(v interface{}) string {
 		c, err := SignCompact(canon(v), hdrSigner{signer, hdr})
